@@ -90,6 +90,7 @@ type signerWallet struct {
 	name string
 	mu   sync.Mutex
 	list []*signerAccount
+	ctl  *duringCtl // the signer is being asked: queries may land now (during.go)
 }
 
 func (w *signerWallet) ID() uuid.UUID { return uuid.UUID{0x3a} }
@@ -97,6 +98,7 @@ func (w *signerWallet) Type() string  { return "fake" }
 func (w *signerWallet) Name() string  { return w.name }
 func (w *signerWallet) Version() uint { return 1 }
 func (w *signerWallet) Accounts(_ context.Context) <-chan e2wtypes.Account {
+	w.ctl.fire("accounts")
 	w.mu.Lock()
 	defer w.mu.Unlock()
 	ch := make(chan e2wtypes.Account, len(w.list))
@@ -146,6 +148,7 @@ type storedWallet struct {
 type fakeStore struct {
 	mu      sync.Mutex
 	wallets map[string]*storedWallet
+	ctl     *duringCtl // the store is being read: queries may land now (during.go)
 }
 
 func newFakeStore() *fakeStore { return &fakeStore{wallets: map[string]*storedWallet{}} }
@@ -216,6 +219,7 @@ func (s *fakeStore) RetrieveWallets() <-chan []byte {
 	return ch
 }
 func (s *fakeStore) RetrieveWallet(name string) ([]byte, error) {
+	s.ctl.fire("accounts")
 	s.mu.Lock()
 	defer s.mu.Unlock()
 	if w, ok := s.wallets[name]; ok {
@@ -265,6 +269,7 @@ type node struct {
 	vals   []Val
 	calls  int
 	asked  []int // number of public keys named by each request
+	ctl    *duringCtl // the node is being asked: queries may land now (during.go)
 }
 
 func (n *node) script(fail bool, failOn int, vals []Val) {
@@ -274,6 +279,7 @@ func (n *node) script(fail bool, failOn int, vals []Val) {
 }
 
 func (n *node) Validators(ctx context.Context, opts *api.ValidatorsOpts) (*api.Response[map[phase0.ValidatorIndex]*apiv1.Validator], error) {
+	n.ctl.fire("validators")
 	n.mu.Lock()
 	defer n.mu.Unlock()
 	n.calls++
